@@ -54,6 +54,12 @@ func runC02(p *Prog, r *Report) {
 	if want("C02.9") {
 		ruleMergedIterator(p, r, "C02.9")
 	}
+	if want("C02.11") {
+		ruleMemdbIterRange(p, r, "C02.11")
+	}
+	if want("C02.10") {
+		ruleRangePlumbing(p, r, "C02.10")
+	}
 }
 
 func retConstBool(val bool) InstrPred {
